@@ -40,6 +40,9 @@ class ConclusionSelector(LogicalOperator, ABC):
         super()._reset_only_my_cache_()
         # the record of produced conclusions belongs to one evaluation, like the other duplicate tracking sets.
         self.concluded_before = {True: SeenSet(), False: SeenSet()}
+        # so do the conclusions selected for an output: when the consumer abandons the evaluation at that output, the
+        # clear() that follows the yield never runs, and the next evaluation would apply them to its first output.
+        self._conclusion_.clear()
 
     def _copy_expression_(self, postfix: str) -> SymbolicExpression:
         cp = super()._copy_expression_(postfix)
